@@ -841,12 +841,15 @@ pub fn gen_prog(rng: &mut Rng, o: &GenOpts) -> Prog {
     let mut steps = vec![];
     let mut sh = shape;
     let mut after_barrier = false;
+    let mut hazard = false;
     for _ in 0..n {
-        let s = gen_step(rng, sh, o, after_barrier, 0, parts_hint);
+        let s = if hazard { match gen_clearing_step(rng, sh) { Some(s) => s, None => break } } else { gen_step(rng, sh, o, after_barrier, 0, parts_hint) };
         sh = shape_after(sh, &s).unwrap();
+        hazard = emits_unordered_lists(&s, after_barrier);
         after_barrier |= s.is_barrier();
         steps.push(s);
     }
+    if hazard { if let Some(s) = gen_clearing_step(rng, sh) { steps.push(s); } }
     Prog { shape, src, steps }
 }
 
@@ -859,11 +862,16 @@ pub fn gen_prog_to(rng: &mut Rng, o: &GenOpts, target: Shape, depth: usize) -> P
         let mut steps = vec![];
         let mut sh = shape;
         let mut after_barrier = false;
+        let mut hazard = false;
         for _ in 0..n {
-            let s = gen_step(rng, sh, o, after_barrier, depth, 3);
+            let s = if hazard { match gen_clearing_step(rng, sh) { Some(s) => s, None => break } } else { gen_step(rng, sh, o, after_barrier, depth, 3) };
             sh = shape_after(sh, &s).unwrap();
+            hazard = emits_unordered_lists(&s, after_barrier);
             after_barrier |= s.is_barrier();
             steps.push(s);
+        }
+        if hazard {
+            if let Some(s) = gen_clearing_step(rng, sh) { sh = shape_after(sh, &s).unwrap(); steps.push(s); }
         }
         if sh == target {
             return Prog { shape, src, steps };
@@ -910,6 +918,10 @@ pub fn check_prog(cx: &mut Ctx, prog: &Prog, modes: &[Mode], o: &CheckOpts) {
     // each hung run leaves a spinning thread behind and costs a watchdog period: three are proof enough
     if cx.stats.get("outcome:HANG").copied().unwrap_or(0) >= 3 {
         cx.count("skipped-after-3-hangs");
+        return;
+    }
+    if !hazard_free(prog) {
+        cx.count("skipped:hash-ordered-lists-reach-an-order-sensitive-step");
         return;
     }
     count_prog(cx, prog);
@@ -972,6 +984,65 @@ pub fn check_prog_oracle_only(cx: &mut Ctx, prog: &Prog, desc: &str, modes: &[Mo
 /// a keyed source of `n` rows over `keys` keys with values 0..n (deterministic)
 pub fn large_keyed_source(n: usize, keys: i64) -> Vec<V> {
     (0..n as i64).map(|i| V::pair(V::I((i * 7919) % keys), V::I(i % 1000))).collect()
+}
+
+/* ---------------------------------------------------------------- hash-order hazards */
+
+/// Does this step emit LISTS whose element order comes out of a hash container (a `HashSet` turned into a
+/// `Vec`, or group values collected from rows that themselves arrive in hash order)?
+fn emits_unordered_lists(s: &Step, after_barrier: bool) -> bool {
+    match s {
+        Step::CombineValues(Comb::Dset) | Step::CombineValuesLifted(Comb::Dset) => true,
+        Step::CombineGlobally(Comb::Dset, _) | Step::CombineGloballyLifted(Comb::Dset, _) => true,
+        Step::Gbk => after_barrier,
+        _ => false,
+    }
+}
+/// steps that may consume such lists without looking at their element order, and remove them
+fn clears_unordered_lists(s: &Step) -> bool {
+    matches!(s, Step::Glen | Step::Gsum | Step::Ungroup | Step::Map(Fn_::Len) | Step::MapValues(Fn_::Len)
+        | Step::CombineValues(Comb::Count) | Step::CombineValuesLifted(Comb::Count)
+        | Step::CombineGlobally(Comb::Count, _) | Step::CombineGloballyLifted(Comb::Count, _))
+}
+/// A program is hazard-free when every step that follows a producer of hash-ordered lists is one that
+/// consumes them order-insensitively. Otherwise equality / ordering of list-valued data (group by a list
+/// key, distinct, min/max/top-k ties broken on the encoded text) could differ between two CORRECT runs,
+/// and between the real run and the insertion-ordered model — a false alarm, not a finding.
+pub fn hazard_free(prog: &Prog) -> bool {
+    fn walk(steps: &[Step]) -> bool {
+        let mut after_barrier = false;
+        let mut hazard = false;
+        for s in steps {
+            if let Step::Join(_, r) = s { if !walk(&r.steps) || ends_in_hazard(&r.steps) { return false; } }
+            if hazard {
+                if !clears_unordered_lists(s) { return false; }
+                hazard = false;
+            }
+            if emits_unordered_lists(s, after_barrier) { hazard = true; }
+            after_barrier |= s.is_barrier();
+        }
+        true
+    }
+    walk(&prog.steps)
+}
+pub fn ends_in_hazard(steps: &[Step]) -> bool {
+    let mut after_barrier = false;
+    let mut hazard = false;
+    for s in steps {
+        if hazard && clears_unordered_lists(s) { hazard = false; }
+        if emits_unordered_lists(s, after_barrier) { hazard = true; }
+        after_barrier |= s.is_barrier();
+    }
+    hazard
+}
+/// one clearing step legal in shape `sh`, if any
+fn gen_clearing_step(rng: &mut Rng, sh: Shape) -> Option<Step> {
+    Some(match sh {
+        Shape::KG => match rng.below(4) { 0 => Step::Glen, 1 => Step::Gsum, 2 => Step::Ungroup, _ => Step::CombineValuesLifted(Comb::Count) },
+        Shape::T => if rng.chance(1, 2) { Step::Map(Fn_::Len) } else { Step::CombineGlobally(Comb::Count, None) },
+        Shape::KV => if rng.chance(1, 2) { Step::MapValues(Fn_::Len) } else { Step::CombineValues(Comb::Count) },
+        Shape::R => return None,
+    })
 }
 
 /// would appending `s` to a block whose ops so far are `block` make the reorder pass change the order?
